@@ -13,35 +13,37 @@ import (
 // ---- Scope.tla items and their dumb rendering ----
 
 type scItem struct {
-	K     string `json:"k"`
-	N     string `json:"n"`
-	ID    int    `json:"id"`
-	Fl    string `json:"fl"`
-	U     string `json:"u"`
-	B     int    `json:"b"`
-	M     string `json:"m"`
-	Mid   int    `json:"mid"`
-	Nb    int    `json:"nb"`
-	P     string `json:"p"`
-	Pid   int    `json:"pid"`
-	T     string `json:"t"`
-	Tb    int    `json:"tb"`
-	Colon bool   `json:"colon"`
-	SelfW bool   `json:"selfw"`
-	InFn  bool   `json:"infn"`
-	Vis   []int  `json:"vis"`
-	VisPend []int `json:"vispend"`
-	Top   bool   `json:"top"`
-	InGF  bool   `json:"ingf"`
-	hasVis bool
+	K       string `json:"k"`
+	N       string `json:"n"`
+	ID      int    `json:"id"`
+	Fl      string `json:"fl"`
+	U       string `json:"u"`
+	B       int    `json:"b"`
+	M       string `json:"m"`
+	Mid     int    `json:"mid"`
+	Nb      int    `json:"nb"`
+	P       string `json:"p"`
+	Pid     int    `json:"pid"`
+	T       string `json:"t"`
+	Tb      int    `json:"tb"`
+	Colon   bool   `json:"colon"`
+	SelfW   bool   `json:"selfw"`
+	InFn    bool   `json:"infn"`
+	Vis     []int  `json:"vis"`
+	VisPend []int  `json:"vispend"`
+	VisX    []int  `json:"visx"` // visible inside the statement's own expression when that differs from vis (elseif)
+	hasVisX bool
+	Top     bool `json:"top"`
+	InGF    bool `json:"ingf"`
+	hasVis  bool
 	// as-built alternatives attached by TLC (-1 = deviation does not apply): binding predicted for slot u / n / t
-	Alt  *scAlt `json:"alt"`
-	Altn *scAlt `json:"altn"`
-	Altt *scAlt `json:"altt"`
-	Altm *scAlt `json:"altm"`
-	Mb   int    `json:"mb"`
-	RFile int   `json:"file"` // require: number of the required file
-	Mi    int   `json:"mi"`   // meth: 1-based position of the item; muse: position of the method item whose member is read
+	Alt   *scAlt `json:"alt"`
+	Altn  *scAlt `json:"altn"`
+	Altt  *scAlt `json:"altt"`
+	Altm  *scAlt `json:"altm"`
+	Mb    int    `json:"mb"`
+	RFile int    `json:"file"` // require: number of the required file
+	Mi    int    `json:"mi"`   // meth: 1-based position of the item; muse: position of the method item whose member is read
 	// set by a family before rendering (not part of TLC's record)
 	Attr  bool   `json:"-"` // local: written with a <const> attribute
 	MName string `json:"-"` // meth: the method's own name (default "mm"); when set an occurrence of role "mdef" is recorded
@@ -56,6 +58,7 @@ func (it *scItem) UnmarshalJSON(b []byte) error {
 	}
 	*it = scItem(p)
 	it.hasVis = strings.Contains(string(b), `"vis"`)
+	it.hasVisX = strings.Contains(string(b), `"visx"`)
 	return nil
 }
 
@@ -94,37 +97,37 @@ type scGDef struct {
 }
 
 type scCase struct {
-	Fam   string    `json:"fam"`
-	Items []scItem  `json:"items"`
-	GDefs []scGDef  `json:"gdefs"`
-	Reads []int     `json:"reads"`
-	NDecl int       `json:"ndecl"`
-	VisEnd []int    `json:"visend"`
-	Extra json.RawMessage `json:"extra"`
+	Fam    string          `json:"fam"`
+	Items  []scItem        `json:"items"`
+	GDefs  []scGDef        `json:"gdefs"`
+	Reads  []int           `json:"reads"`
+	NDecl  int             `json:"ndecl"`
+	VisEnd []int           `json:"visend"`
+	Extra  json.RawMessage `json:"extra"`
 }
 
 // occ is one identifier occurrence in the rendered text.
 type occ struct {
-	Item int
-	Slot string // which field of the item
-	Name string
-	File int // 0-based
-	Line int // 0-based
-	Col  int
-	Role string // "decl", "use", "write", "gdef"
-	Decl int    // id declared here (decl, gdef)
-	B    int    // binding (use, write): local decl id or 0 = global
-	Alt  map[string]int
-	Kind string // declaration kind for decl: local, param, loop, lfunc, lefunc, gfunc, self
-	SelfW bool  // global assignment inside the function statement that defines the same global
+	Item  int
+	Slot  string // which field of the item
+	Name  string
+	File  int // 0-based
+	Line  int // 0-based
+	Col   int
+	Role  string // "decl", "use", "write", "gdef"
+	Decl  int    // id declared here (decl, gdef)
+	B     int    // binding (use, write): local decl id or 0 = global
+	Alt   map[string]int
+	Kind  string // declaration kind for decl: local, param, loop, lfunc, lefunc, gfunc, self
+	SelfW bool   // global assignment inside the function statement that defines the same global
 }
 
 type scRender struct {
-	Files []string   // file names
-	Text  []string   // file contents
-	Lines [][]string // per file lines
-	Occ   []occ
-	DeclAt map[int]*occ // decl id -> occurrence
+	Files  []string   // file names
+	Text   []string   // file contents
+	Lines  [][]string // per file lines
+	Occ    []occ
+	DeclAt map[int]*occ   // decl id -> occurrence
 	ItemAt map[int][2]int // item index -> (line, column) where its statement starts
 }
 
@@ -317,9 +320,9 @@ func posParams(file string, line, col int) json.RawMessage {
 
 // lspLoc is a location returned by the server, projected to (file, line, col).
 type lspLoc struct {
-	File      string
-	SL, SC    int
-	EL, EC    int
+	File   string
+	SL, SC int
+	EL, EC int
 }
 
 type rawLoc struct {
